@@ -19,6 +19,10 @@ import traceback
 
 ROOT = os.path.dirname(os.path.dirname(os.path.abspath(__file__)))
 sys.path.insert(0, ROOT)
+# The registered commands verify /repo. For testing the machinery against a scratch worktree (seeded
+# changes), VERIF_REPO=<worktree> makes both the extractor and the imported `ufo2ft` come from there.
+if os.environ.get("VERIF_REPO"):
+    sys.path.insert(0, os.path.join(os.environ["VERIF_REPO"], "Lib"))
 
 import warnings  # noqa: E402
 
@@ -31,6 +35,8 @@ from pyvc.solve import discharge  # noqa: E402
 from pyvc.symex import Executor  # noqa: E402
 
 LEVELS = {}
+OUT = os.environ.get("VERIF_OUT", os.path.join(ROOT, "out"))
+EVID = os.environ.get("VERIF_EVIDENCE", os.path.join(ROOT, "evidence"))
 
 
 def load_all_contracts():
@@ -144,7 +150,7 @@ def runtime_search(c, n_cases, seed, stop_on_fail=True):
 
 
 def write_replay(pid, name, payload):
-    d = os.path.join(ROOT, "out", pid, "replay")
+    d = os.path.join(OUT, pid, "replay")
     os.makedirs(d, exist_ok=True)
     fn = "".join(ch if ch.isalnum() or ch in "._-@#" else "_" for ch in name) + ".json"
     p = os.path.join(d, fn)
@@ -176,7 +182,7 @@ def check_property(pid, tier, seed):
 
     cs = [c for c in api.CONTRACTS.values() if pid in c.props]
     lms = [l for l in api.LEMMAS.values() if pid in l.props]
-    outdir = os.path.join(ROOT, "out", pid, "smt")
+    outdir = os.path.join(OUT, pid, "smt")
     if os.path.isdir(outdir):
         for f in os.listdir(outdir):
             os.unlink(os.path.join(outdir, f))
@@ -381,8 +387,8 @@ def check_property(pid, tier, seed):
         "wall_s": round(time.time() - t0, 2),
         "violations": len(violations),
     }
-    os.makedirs(os.path.join(ROOT, "evidence"), exist_ok=True)
-    with open(os.path.join(ROOT, "evidence", f"{pid}.json"), "w") as f:
+    os.makedirs(EVID, exist_ok=True)
+    with open(os.path.join(EVID, f"{pid}.json"), "w") as f:
         json.dump(ev, f, indent=1, default=str)
     for l in lines:
         print(l)
